@@ -306,6 +306,11 @@ def _field_selection(repo, rep, modname, fname, kind):
                 repr_on = _fact(facts_, 'truthy(%s.repr)' % fx, True)
                 if not repr_on:
                     continue
+                examined = _fact(facts_, ('MISSING == %s.default' if kind == 'dataclass' else 'NOTHING == %s.default') % fx, None) is not None
+                if not examined:
+                    # a field that is shown by repr and whose default the path never looked at: nothing on the path excuses leaving it out
+                    expected.append(fx)
+                    continue
                 if kind == 'dataclass':
                     nodef = _fact(facts_, 'MISSING == %s.default' % fx, None) and _fact(facts_, 'MISSING == %s.default_factory' % fx, None)
                     has_default = _fact(facts_, 'MISSING == %s.default' % fx, None) is False
